@@ -1,4 +1,5 @@
 import faulthandler, sys
+faulthandler.enable()
 faulthandler.dump_traceback_later(int(sys.argv[1]), exit=True)
 sys.argv = ['run1.py'] + sys.argv[2:]
-exec(open('/verif/run1.py').read())
+exec(open('/verif/run2.py').read())
